@@ -217,7 +217,33 @@ def corpus(rng):
                    F.Reservoir(3, seed=seed), [4, [3], False, 40, c05.enc_seed(seed), [opt(x) for x in reservoir_skips(seed, 3, 40)]]))
     return cs
 
+def environments_law(ctx):
+    """Environments.cache() / chunk() / params() / batch().unbatch() over SEVERAL environments: each environment still yields its own interactions, in any reading order, repeatedly"""
+    import coba
+    from .c04 import read_all
+    rng = ctx.rng
+    for _ in range(ctx.n(12, 120)):
+        seeds = rng.sample(range(1, 40), rng.choice([2, 3]))
+        n = rng.choice([3, 6, 30])
+        how = rng.choice(["cache", "chunk", "cache+chunk", "batch"])
+        order = list(range(len(seeds))); rng.shuffle(order)
+        case = dict(what="several environments", n=n, shuffle_seeds=seeds, shortcut=how, read_order=order)
+        ctx.count("environments:" + how, repr(case), True)
+        try:
+            base = lambda: coba.Environments.from_linear_synthetic(n, n_actions=3, n_context_features=2, n_action_features=0, seed=5).shuffle(list(seeds))
+            ref = [read_all(e) for e in base()]
+            envs = base()
+            envs = envs.cache() if how == "cache" else envs.chunk() if how == "chunk" else envs.cache().chunk() if how == "cache+chunk" else envs.batch(2).unbatch()
+            for j in order + order[::-1]:
+                got = read_all(envs[j])
+                if got != ref[j]:
+                    ctx.fail(["environments", "not-identity", how], "environment %d of %d after .%s() reads %d interactions that are not its own (first difference at %s)" % (
+                        j, len(seeds), how, len(got), next((i for i, (a, b) in enumerate(zip(got, ref[j])) if a != b), min(len(got), len(ref[j])))), case); break
+        except Exception as e:
+            ctx.fail(["environments", "raises", errname(e)], "raised %s: %s on %s" % (errname(e), str(e)[:100], case), case)
+
 def run(ctx):
+    environments_law(ctx)
     check(ctx, corpus(ctx.rng), "corpus")
     cases = []
     while len(cases) < ctx.n(1500, 25000):
